@@ -80,7 +80,7 @@ def run(tier, seed):
     crc = common.run_tlc("MC_Crc", "MC_Crc.cfg", workers=1, timeout=300)
     common.require_tlc_ok(crc, "Crc sanity theorems")
     # ---- the call-level model of the writer and of the reader's header (SingleObject.tla): all sink / source schedules, three mutants
-    so_cfgs = ["MC_SingleObject.cfg" if tier == "quick" else "MC_SingleObject_thorough.cfg", "MC_SingleObject_p2.cfg", "MC_SingleObject_p3.cfg"]
+    so_cfgs = ["MC_SingleObject.cfg" if tier == "quick" else "MC_SingleObject_thorough.cfg", "MC_SingleObject_r.cfg", "MC_SingleObject_p2.cfg", "MC_SingleObject_p3.cfg"]
     so_runs = [common.run_tlc("SingleObject", c, workers=4, timeout=900) for c in so_cfgs]
     for c, r_ in zip(so_cfgs, so_runs):
         common.require_tlc_ok(r_, f"SingleObject model ({c})")
@@ -88,9 +88,15 @@ def run(tier, seed):
         mr = common.run_tlc("SingleObject", f"MC_SingleObject_mut{m}.cfg", workers=2, timeout=300)
         if mr["ok"] or "is violated" not in mr["out"]:
             raise common.ToolError(f"SingleObject mutant {m} not detected: invariants are vacuous")
-    so_scn = so_runs[0]["scn"]
-    if len(so_scn) < 100:
-        raise common.ToolError(f"SingleObject emitted only {len(so_scn)} behaviours")
+    so_scn = [x for x in so_runs[0]["scn"] if x.get("side") == "w"]
+    rd_scn = {}
+    for x in so_runs[1]["scn"]:                  # interruptions change nothing a ChunkedReader can show: one replay per chunking
+        if x.get("side") == "r":
+            k = (tuple(c for c in x["sched"] if c != 100), x["srcLen"], x["markerOk"], x["fpOk"])
+            if rd_scn.setdefault(k, x["res"]) != x["res"]:
+                raise common.ToolError(f"SingleObject: the reader's verdict depends on interruptions {k}")
+    if len(so_scn) < 100 or len(rd_scn) < 100:
+        raise common.ToolError(f"SingleObject emitted only {len(so_scn)} / {len(rd_scn)} behaviours")
     # replay: the model's Parts for PartsId = 1 is one three-byte write_all after the header = a long of three bytes under schema "long"
     Gl = scopes.flatten(scopes.prim("long"))["nodes"]
     vl = {"t": "long", "v": pyavro.limbs(20000)}
@@ -115,6 +121,27 @@ def run(tier, seed):
                               {"fam": "so_replay", "cmd": c, "sched": sc["sched"], "want": want}, observed=o)
             elif want == "err" and len(got) != sc["accepted"]:
                 rep.note(f"sink schedule {sc['sched']}: {len(got)} bytes accepted before the failure, the call-level model says {sc['accepted']}")
+        # the reader's behaviours: the message cut to the model's length, marker / fingerprint damaged as the model says, the header handed
+        # out in the model's chunks (the last size goes on for the datum); Ok exactly when the model reaches the datum decoder AND the datum is whole
+        rd_cmds, rd_want = [], []
+        for (chunks, n, mok, fok), res in sorted(rd_scn.items(), key=lambda kv: json.dumps(kv[0])):
+            for flip_m, flip_f in ((0, 2), (1, 9), (1, 5)):
+                b = list(ref["bytes"])
+                if not mok:
+                    b[flip_m] ^= 1 + 127 * flip_m
+                if not fok:
+                    b[flip_f] ^= 16
+                rd_cmds.append({"op": "so_de", "id": len(rd_cmds), "schema": {"nodes": Gl}, "bytes": b[:n],
+                                "reader": {"kind": "chunks", "sched": list(chunks) or [1]}})
+                rd_want.append("ok" if res == "datum" and n == 13 else "err")
+                if mok and fok:
+                    break
+        for c, want, o in zip(rd_cmds, rd_want, common.run_harness(rd_cmds)):
+            n_replayed += 1
+            if o.get("res") != want or (want == "ok" and (o.get("consumed") != 13 or o.get("value") != vl)):
+                rep.violation(f"from_single_object_reader over source chunks {c['reader']['sched']} of a {len(c['bytes'])}-byte message: model says {want}, "
+                              f"code returned {o.get('res')} {o.get('msg', '')[:80]} consumed={o.get('consumed')}",
+                              {"fam": "so_replay_rd", "cmd": c, "want": want}, observed=o)
     rng = random.Random(seed + 18)
     trees = [t for _, t in scopes.schema_trees(tier, rng)]
     events, descr = [], []
@@ -207,7 +234,7 @@ def run(tier, seed):
                 "the same message decoded under schemas with a different canonical form (renamed field, reversed enum symbols, added null field, renamed types). "
                 "TLC recomputes marker ++ LE(CRC-64-AVRO(Pcf(schema))) ++ Enc(value) and the decoding verdict for every event.",
         "call_level_model": {"module": "SingleObject.tla", "configs": so_cfgs, "distinct_states": [r_["distinct"] for r_ in so_runs],
-                             "mutants_refuted": 3, "behaviours_replayed_into_to_single_object": n_replayed,
+                             "mutants_refuted": 3, "behaviours_replayed_into_real_code": n_replayed, "writer_schedules": len(so_scn), "reader_chunkings": len(rd_scn),
                              "what": "write_all(marker), write_all(fingerprint), datum write calls over every sink schedule of MaxCalls calls (accept 1..8 / Interrupted / Ok(0) / hard error); "
                                      "read_exact(10) over every source schedule, then marker and fingerprint comparison; invariants SinkIsPrefix, OkMeansWhole, FaultSurfaces, ReaderSound, ReaderShort"},
         "by_kind": kinds, "samples": [ser_cmds[0], {k: v for k, v in de_cmds[5].items()}], "exhaustive": False,
@@ -230,6 +257,12 @@ def replay(path):
         good = ref.get("res") == "ok" and len(ref["bytes"]) == 13 and o.get("res") == want and got is not None and got == ref["bytes"][:len(got)] \
             and (want != "ok" or got == ref["bytes"])
         if not good:
+            print(f"VIOLATION property={PROP} replay={path}")
+            return common.EXIT_VIOLATION
+        return common.EXIT_OK
+    if sc.get("fam") == "so_replay_rd":
+        print(json.dumps(o)[:1200])
+        if o.get("res") != sc["want"] or (sc["want"] == "ok" and o.get("consumed") != 13):
             print(f"VIOLATION property={PROP} replay={path}")
             return common.EXIT_VIOLATION
         return common.EXIT_OK
